@@ -243,15 +243,23 @@ struct Worker {
 }
 
 fn spawn_worker(id: &str, slot: usize, gen: u64, tx: &mpsc::Sender<(u64, Msg)>) -> Worker {
-    let exe = std::env::current_exe().unwrap();
-    let mut child = Command::new(exe)
-        .arg("worker")
-        .arg(id)
-        .stdin(Stdio::piped())
-        .stdout(Stdio::piped())
-        .stderr(Stdio::null())
-        .spawn()
-        .expect("spawn worker");
+    // /proc/self/exe names the running image itself: it stays valid when the file at the original
+    // path is replaced by a rebuild while a check is running
+    let mut tries = 0;
+    let mut child = loop {
+        match Command::new("/proc/self/exe").arg("worker").arg(id).stdin(Stdio::piped()).stdout(Stdio::piped()).stderr(Stdio::null()).spawn() {
+            Ok(c) => break c,
+            Err(e) => {
+                tries += 1;
+                if tries >= 5 {
+                    // a harness failure is never a verdict on the property
+                    println!("INCONCLUSIVE property={} reason=cannot start a worker process: {}", id, e);
+                    std::process::exit(2);
+                }
+                std::thread::sleep(std::time::Duration::from_millis(200));
+            }
+        }
+    };
     let stdout = child.stdout.take().unwrap();
     let stdin = child.stdin.take();
     let tx = tx.clone();
